@@ -619,6 +619,18 @@ func (prop) Execute(scAny any, phase string, log *core.Log) core.Result {
 					res.Fail("geojson-bbox-wrong", "geojson-bbox-wrong:"+m.T, "the GeoJSON bounding box of %s is %v, the coordinates span %v", m, doc.BBox, want)
 					return res
 				}
+				// With a maximum number of decimal digits the box is the box of
+				// the numbers that are written: rounding is monotone, so every
+				// bbox number equals the min/max of the emitted ordinates of its
+				// dimension (no rounding is re-implemented here).
+				if m.T != mgeom.GC && (m.L == 1 || m.L == 2 || m.L == 4) && i < 2 && (len(s.Deliveries[0])+len(s.Points))%3 == 0 {
+					// (reflection makes this the costliest call of the run: one
+					// run in three, the first two messages)
+					digits := (i*7 + len(s.Msgs)) % 7
+					if !bboxMatchesEmitted(&res, g, m, digits) {
+						return res
+					}
+				}
 			}
 		}
 	}
@@ -908,6 +920,67 @@ func wideBounds(res *core.Result, log *core.Log, s *Scenario) bool {
 			}
 		}
 		log.Addf("wide %d %s layout %d ok", wi, m.T, m.L)
+	}
+	return true
+}
+
+// bboxMatchesEmitted marshals g with a bounding box and a maximum number of
+// decimal digits and compares the bbox numbers with the min/max of the
+// coordinates as emitted in the same document.
+func bboxMatchesEmitted(res *core.Result, g geom.T, m *mgeom.Geom, digits int) bool {
+	var js []byte
+	var jerr error
+	if p := core.Guard(func() {
+		js, jerr = geojson.Marshal(g, geojson.EncodeGeometryWithBBox(), geojson.EncodeGeometryWithMaxDecimalDigits(digits))
+	}); p != "" {
+		res.Fail("panic", "panic:geojson-bbox-digits:"+core.PanicSite(p), "geojson.Marshal with bbox and %d decimal digits panicked on %s: %s", digits, m, p)
+		return false
+	}
+	res.Steps++
+	if jerr != nil {
+		res.Fail("geojson-bbox-wrong", "geojson-bbox-wrong:digits-error", "geojson.Marshal of %s with a bounding box and at most %d decimal digits failed: %v (it succeeds without the digits option)", m, digits, jerr)
+		return false
+	}
+	var doc struct {
+		BBox        []float64 `json:"bbox"`
+		Coordinates any       `json:"coordinates"`
+	}
+	if err := json.Unmarshal(js, &doc); err != nil {
+		res.Fail("geojson-bbox-wrong", "geojson-bbox-wrong:not-json", "geojson.Marshal with bbox and %d decimal digits produced invalid JSON %s: %v", digits, js, err)
+		return false
+	}
+	lo := []float64{math.Inf(1), math.Inf(1), math.Inf(1)}
+	hi := []float64{math.Inf(-1), math.Inf(-1), math.Inf(-1)}
+	var walk func(v any)
+	walk = func(v any) {
+		arr, ok := v.([]any)
+		if !ok || len(arr) == 0 {
+			return
+		}
+		if _, isNum := arr[0].(float64); isNum {
+			for d := 0; d < len(arr) && d < 3; d++ {
+				if f, ok := arr[d].(float64); ok {
+					lo[d], hi[d] = math.Min(lo[d], f), math.Max(hi[d], f)
+				}
+			}
+			return
+		}
+		for _, x := range arr {
+			walk(x)
+		}
+	}
+	walk(doc.Coordinates)
+	nd := len(doc.BBox) / 2
+	res.Count("probe:geojson-bbox-with-max-digits", 1)
+	if len(doc.BBox) != 4 && len(doc.BBox) != 6 {
+		res.Fail("geojson-bbox-wrong", "geojson-bbox-wrong:digits", "with at most %d decimal digits the bounding box of %s has %d numbers: %s", digits, m, len(doc.BBox), js)
+		return false
+	}
+	for d := 0; d < nd; d++ {
+		if doc.BBox[d] != lo[d] || doc.BBox[nd+d] != hi[d] {
+			res.Fail("geojson-bbox-wrong", "geojson-bbox-wrong:digits", "with at most %d decimal digits the bounding box of %s is %v but the coordinates written in the same document span %v..%v: %s", digits, m, doc.BBox, lo[:nd], hi[:nd], js)
+			return false
+		}
 	}
 	return true
 }
